@@ -75,7 +75,7 @@ class C11(Check):
     LEVEL = 'exploration'
     BUDGET = {'quick': 30, 'thorough': 240}
     RULE = ('case = (program from the typed generator: up to 5 top-level operators, nesting depth <= 3 of group_by / roll / split / time_split / tee_map '
-            'around stateless, stateful, reducing and batching operators; input of 0..30 ints; mode multiplexed, or plain for programs made of '
+            'around stateless, stateful, reducing and batching operators; input of 0..30 ints (every 700th case at scale: ~700 items, take/batch/lag 257+, roll windows of 257-400, 300-1000 groups, day-scale time_split timeouts on datetime stamps); mode multiplexed, or plain for programs made of '
             'dual-mode operators without take/first). The source is a Subject; every output is stamped with the index of the item being pushed. '
             'non-trivial = at least one output before completion and at least one at completion; distinct = hash of (program, input, mode)')
     ASSUMPTIONS = ['the reference model (rxverif/model.py) is the specification of what determines each output; it is cross-checked by the '
@@ -84,12 +84,28 @@ class C11(Check):
                    'first/last/mean(reduce) on an empty key are outside the domain (discarded by the model)']
     ANCHORS = ['rxsci/data/roll.py', 'rxsci/data/split.py', 'rxsci/data/time_split.py', 'rxsci/operators/group_by.py',
                'rxsci/operators/tee_map.py', 'rxsci/operators/scan.py', 'rxsci/data/batch.py', 'rxsci/operators/multiplex.py']
-    REQUIRED_TAGS = ['roll', 'split', 'time_split', 'group_by', 'tee_map', 'batch', 'scan', 'mux', 'plain', 'depth>=2']
+    REQUIRED_TAGS = ['roll', 'split', 'time_split', 'group_by', 'tee_map', 'batch', 'scan', 'mux', 'plain', 'depth>=2', 'scale']
     REQUIRED_OBSERVED = ['outputs_positioned', 'outputs_before_completion', 'outputs_at_completion']
 
     def generate(self, rng, tier, shard, nshards):
         n = 20000 if tier == 'quick' else 10 ** 7
         for k in range(n):
+            if k % 700 == 350:
+                # scale: sizes beyond CPython's small-int cache and typical block sizes (take/batch/lag 257+, roll windows
+                # of 257-400 items, 300-1000 groups, day-scale time_split timeouts) on streams of ~700 items
+                if (k // 700) % 3 == 2:
+                    cfg = {'active': rng.choice([None, 86400, 90000, 604800]), 'inactive': rng.choice([None, 86400, 172800]),
+                           'closing': rng.choice([None, 'modeq:7:0']), 'include': rng.random() < 0.5, 'time': 'dt'}
+                    t, items = 0, []
+                    for _ in range(rng.choice([10, 60])):
+                        t += rng.choice([0, 1, 3600, 86399, 86400, 86401, 172800, 31536000, 90000])
+                        items.append(t)
+                    yield {'prog': [['time_split', cfg, [['to_list']]]], 'items': items, 'mode': 'mux'}
+                    continue
+                opts = gen.GenOpts(model_safe=True, max_depth=1, scale=True, exclude_ops=('fvariance', 'fstddev'), allow_progress=False)
+                prog, _ = gen.gen_pipeline(rng, 'i', rng.randint(1, 3), opts)
+                yield {'prog': prog, 'items': [rng.randint(0, 1000) for _ in range(rng.choice([300, 700]))], 'mode': 'mux'}
+                continue
             plain = (k % 5 == 0)
             if plain:
                 opts = gen.GenOpts(model_safe=True, dual_only=True, max_depth=2, exclude_ops=('take', 'first'))
@@ -106,6 +122,8 @@ class C11(Check):
         out.tags += sorted(set(names)) + [mode]
         if progs.depth(prog) >= 2:
             out.tags.append('depth>=2')
+        if len(items) >= 300 or (items and max(items) > 10 ** 5):
+            out.tags.append('scale')
         try:
             want = model.run(prog, items, plain=(mode == 'plain'))
         except model.Discard as d:
